@@ -49,6 +49,13 @@ enum AnySock {
 }
 
 impl AnySock {
+    fn send_unix(&self, msg: &[u8], to: &PathBuf) -> bool {
+        match self {
+            AnySock::UB(s) => s.send(msg, to).is_ok(),
+            AnySock::UN(s) => s.send(msg, to).is_ok(),
+            _ => true,
+        }
+    }
     /// (length, address as a string)
     fn recv(&self, buf: &mut [u8]) -> Result<(usize, String), ()> {
         match self {
@@ -76,10 +83,14 @@ pub fn xpt(args: &[&str]) -> String {
         Err(_) => return "BADARG".into(),
     };
     let (n, count, seed, cap) = (nums[0], nums[1], nums[2], nums[3]);
-    // mode: b | nb (constructor `new`), bs | nbs (constructor `new_with_skbuf`, unix only)
+    // mode: b | nb (constructor `new`), bs | nbs (constructor `new_with_skbuf`, unix only); a trailing `d` (unix only): traffic is
+    // bidirectional - before the burst the receiver itself SENDS one datagram to sender 0 (a datagram socket that has sent to one
+    // peer must still accept datagrams from every other peer)
+    let bidir = mode.ends_with('d');
+    let mode = mode.trim_end_matches('d');
     let skbuf = mode.ends_with('s');
     let mode = mode.trim_end_matches('s');
-    if !(1..=8).contains(&n) || cap < 8 || cap > 60000 || count > 100000 || !(mode == "b" || mode == "nb") || (skbuf && kind != "unix") {
+    if !(1..=8).contains(&n) || cap < 8 || cap > 60000 || count > 100000 || !(mode == "b" || mode == "nb") || ((skbuf || bidir) && kind != "unix") {
         return "BADARG".into();
     }
     let tag = format!("vp{}-{}", std::process::id(), UNIQ.fetch_add(1, Ordering::SeqCst));
@@ -173,6 +184,12 @@ pub fn xpt(args: &[&str]) -> String {
             }
         }
         _ => return "BADARG".into(),
+    }
+    if bidir {
+        let ok = receiver.send_unix(b"hello from the receiver", &PathBuf::from(&sender_paths[0]));
+        if !ok {
+            failed.store(true, Ordering::SeqCst);
+        }
     }
     // the receiver
     let total = (n * count) as usize;
